@@ -40,7 +40,7 @@ RULE = ('directed corpus (every whole-minute offset -23:59..+23:59, sub-minute o
         'TimeFixture). One monitored execution = one call of a function under test with its oracle; distinct by '
         '(kind, fields, tz spec, form, seconds, delta, function, via); all are non-trivial except normalize_time/'
         'parse_isotime/marshalling of a naive value with zero microseconds')
-REQUIRED_CLAUSES = ['normalize-naive-unchanged', 'normalize-aware-exact', 'normalize-unrepresentable',
+REQUIRED_CLAUSES = ['process-timezone-not-utc', 'comparison-keyword-call', 'normalize-naive-unchanged', 'normalize-aware-exact', 'normalize-unrepresentable',
                     'normalize-range-edge-representable',
                     'parse-isotime-inverts-isoformat', 'marshall-roundtrip', 'marshall-now-under-override',
                     'leap-second-capped', 'override-utcnow', 'override-utcnow_ts',
@@ -566,9 +566,13 @@ def eval_cmp(ctx, case):
             clock = Clock(ctx, case, via, now_f)
             if not clock.start():
                 return
-            got, exc = _call(func, arg, s)
+            if case.get('kw'):
+                ctx.clause('comparison-keyword-call')
+                got, exc = _call(func, **{KWNAMES[fn][0]: arg, KWNAMES[fn][1]: s})
+            else:
+                got, exc = _call(func, arg, s)
             clock.stop()
-            ctx.case(('cmp', fn, case['t'], spec, form, s, delta, via))
+            ctx.case(('cmp', fn, case['t'], spec, form, s, delta, via, bool(case.get('kw')), case.get('proc_tz')))
             ctx.clause(FUNCS[fn] + '-boundary')
             ctx.h('function x argument form x delta -> outcome', '%s %s %s -> %s' % (FUNCS[fn], acls, dcls, want))
             ctx.h('offset class (comparisons)', off_class(spec, off))
@@ -583,8 +587,29 @@ EVAL = {'norm': eval_norm, 'iso': eval_iso, 'marshal': eval_marshal, 'leapdict':
         'clock': eval_clock, 'cmp': eval_cmp}
 
 
+PROC_TZ = ['Asia/Kolkata', 'America/St_Johns', 'Pacific/Kiritimati', 'America/Los_Angeles', 'Australia/Lord_Howe']
+KWNAMES = {'older': ('before', 'seconds'), 'newer': ('after', 'seconds'), 'soon': ('dt', 'window')}   # documented names
+
+
 def evaluate(ctx, case):
-    EVAL[case['kind']](ctx, case)
+    tz = case.get('proc_tz')
+    if not tz:
+        return EVAL[case['kind']](ctx, case)
+    # the process's own local time zone is not UTC: nothing in the property may depend on it
+    import os, time
+    old = os.environ.get('TZ')
+    os.environ['TZ'] = tz
+    time.tzset()
+    try:
+        ctx.clause('process-timezone-not-utc')
+        ctx.h('process TZ', tz)
+        return EVAL[case['kind']](ctx, case)
+    finally:
+        if old is None:
+            os.environ.pop('TZ', None)
+        else:
+            os.environ['TZ'] = old
+        time.tzset()
 
 
 # ----------------------------------------------------------------------
@@ -713,6 +738,10 @@ def run(ctx):
     def emit(case):
         nonlocal idx
         idx += 1
+        if idx % 4 == 0:
+            case = dict(case, proc_tz=PROC_TZ[(idx // 4) % len(PROC_TZ)])
+        if idx % 3 == 0 and case['kind'] == 'cmp':
+            case = dict(case, kw=True)               # the time is passed by its documented keyword
         if ctx.mine(idx):
             ctx.sample(case['kind'] + ('/' + case['form'] if 'form' in case else ''), case)
             evaluate(ctx, case)
